@@ -7,6 +7,7 @@ From Verif Require Import Iso8601.Ext Generated.Iso8601Gen Iso8601.Spec.
 From Verif Require Import Generated.AsmAsciiGen Ascii.AsmTotal Generated.AsciiGen Ascii.Spec.
 From Verif Require Import Proto.Ext Generated.ProtoGen Proto.Model Proto.PrimSpec Proto.Spec.
 From Verif Require Import Json.Ext Generated.JsonParseGen Json.Grammar Json.Spec.
+From Verif Require Import Thrift.Model Thrift.Spec.
 Extraction Language OCaml.
 Extraction "model.ml"
   iso8601_Parse iso8601_Valid time_parse rfc3339nano_layout iso_spec
@@ -15,4 +16,5 @@ Extraction "model.ml"
   ascii_ValidByte ascii_ValidRune ascii_ValidPrintByte ascii_ValidPrintRune
   is_ascii is_print fold_eq has_prefix_fold has_suffix_fold
   Proto.Model.Size Proto.Model.Marshal Proto.Model.MarshalTo Proto.Model.Unmarshal zero_val codec_of type_ok numbers_ok wf_val representable keys_distinct norm
-  json_Valid g_valid std_valid json_escapeIndex first_index needs_escape_json json_decoder_parseValue json_internalParseFlags.
+  json_Valid g_valid std_valid json_escapeIndex first_index needs_escape_json json_decoder_parseValue json_internalParseFlags
+  TMarshal TUnmarshal zero_of enc dec ty_ok tval_wf tnorm spec_enc pkg_dev no_dev.
